@@ -48,11 +48,12 @@ fn diag_exact(report: &mut Report, seed: u64, idx: u64) {
     let mu: Vec<f64> = (0..d).map(|_| rng.range(-5.0, 5.0)).collect();
     let n = 3 + rng.below(40) as usize;
     // points need not be Gaussian draws: any placement
-    let placement = idx % 4;
+    let placement = idx % 5;
     let pts: Vec<Vec<f64>> = (0..n)
         .map(|k| {
             (0..d)
                 .map(|i| match placement {
+                    4 => mu[i] * 0.0 + sigma[i] * (1e6 + rng.normal()),
                     0 => mu[i] + sigma[i] * rng.normal(),
                     1 => mu[i] + 10.0 * sigma[i] + sigma[i] * rng.unif(),
                     2 => rng.range(-3.0, 3.0) * (1.0 + k as f64),
@@ -91,7 +92,7 @@ fn diag_exact(report: &mut Report, seed: u64, idx: u64) {
                 let m = crate::util::mean(&xs);
                 let spread = xs.iter().map(|x| (x - m).abs()).fold(0.0, f64::max);
                 let cancel = (m.abs() + mu[i].abs() + spread) / spread.max(1e-300);
-                let tol = 1e-11 * cancel * cancel;
+                let tol = 1e-10 + 1e-12 * cancel;
                 if tol > 1e-4 {
                     continue; // points too clustered relative to their offset: ill-conditioned by construction
                 }
@@ -100,7 +101,10 @@ fn diag_exact(report: &mut Report, seed: u64, idx: u64) {
                     report.violation("C08:diag:std_not_recovered", format!("coord {i} of {d}: std {} vs sigma {} ({n} points, placement {placement})", parts.stds[i], sigma[i]), replay.clone());
                     return;
                 }
-                if !((parts.mean[i] - mu[i]).abs() <= tol * (sigma[i] + mu[i].abs() + spread)) {
+                // mean = mean(x) + std^2 * mean(grad): two terms of size |mean(x) - mu| cancel, so the relative error of
+                // std^2 (~ eps * cancel) is amplified once more by cancel
+                let tol_mean = 1e-10 + 1e-14 * cancel * cancel;
+                if tol_mean <= 1e-2 && !((parts.mean[i] - mu[i]).abs() <= tol_mean * (sigma[i] + spread)) {
                     report.violation("C08:diag:mean_not_recovered", format!("coord {i} of {d}: mean {} vs mu {} ({n} points, placement {placement})", parts.mean[i], mu[i]), replay.clone());
                     return;
                 }
@@ -131,7 +135,12 @@ fn lowrank_exact(report: &mut Report, seed: u64, idx: u64) {
     let mut rng = HRng::new(seed).fork(0x10E + idx);
     let d = 1 + rng.below(20) as usize;
     let cond = *rng.choose(&[1.0, 10.0, 1e2, 1e4]);
-    let (mu, prec, _cov) = dense_gauss(&mut rng, d, cond);
+    let (mut mu, prec, _cov) = dense_gauss(&mut rng, d, cond);
+    // the Gaussian may sit far from the origin (|mean| / std up to 1e6)
+    let offset = *rng.choose(&[1.0, 1.0, 1e3, 1e6]);
+    for m in mu.iter_mut() {
+        *m *= offset;
+    }
     let n = d + 2 + rng.below(30) as usize;
     let pts: Vec<Vec<f64>> = (0..n).map(|_| (0..d).map(|i| mu[i] + 2.0 * rng.normal()).collect()).collect();
     let grad = |x: &[f64]| -> Vec<f64> {
@@ -181,7 +190,7 @@ fn lowrank_exact(report: &mut Report, seed: u64, idx: u64) {
     });
     let _ = grad;
     let mut h = Fnv::new();
-    h.str("lowrank_exact").u64(d as u64 / 4).u64(cond.log10() as u64).u64((n - d).min(8) as u64);
+    h.str("lowrank_exact").u64(d as u64 / 4).u64(cond.log10() as u64).u64((n - d).min(8) as u64).u64(offset.log10() as u64);
     report.nontrivial(h.finish());
     match r {
         None => report.violation("C08:lowrank:hang", format!("estimator did not return within 60 s (d {d}, {n} points)"), replay),
@@ -192,13 +201,88 @@ fn lowrank_exact(report: &mut Report, seed: u64, idx: u64) {
                 report.violation("C08:lowrank:no_update_with_enough_draws", format!("{n} draws in dimension {d}, transformation unchanged"), replay.clone());
                 return;
             }
-            let tol = 1e-6 * cond.max(1.0);
+            // (measured on the unchanged tree: <= 3e-11 * cond for every offset)
+            let tol = 1e-8 * cond.max(1.0);
+            if std::env::var("VERIF_TIMING").is_ok() {
+                eprintln!("lowrank_exact d {d} n {n} cond {cond:e} offset {offset:e} worst {worst:e}");
+            }
             if !(worst <= tol) {
                 report.violation(
                     "C08:lowrank:gaussian_not_whitened",
-                    format!("|y + grad_y| / |y| = {worst:e} at fresh points (d {d}, {n} points, cond {cond}, tol {tol:e})"),
+                    format!("|y + grad_y| / |y| = {worst:e} at fresh points (d {d}, {n} points, cond {cond}, |mean| scale {offset:e}, tol {tol:e})"),
                     replay,
                 );
+            }
+        }
+    }
+}
+
+/// Low-rank estimator with its DEFAULT settings on a Gaussian whose structure fits rank 0 (independent coordinates,
+/// possibly far from the origin): the diagonal part alone must whiten it and report the true scales.
+fn lowrank_rank0(report: &mut Report, seed: u64, idx: u64) {
+    report.eval();
+    let mut rng = HRng::new(seed).fork(0x2A0 + idx);
+    let d = 1 + rng.below(12) as usize;
+    let sigma: Vec<f64> = (0..d).map(|_| rng.log_range(1e-3, 1e3)).collect();
+    let offset = *rng.choose(&[0.0, 1.0, 1e3, 1e6]);
+    let mu: Vec<f64> = (0..d).map(|i| sigma[i] * offset * if rng.bool(0.5) { 1.0 } else { -1.0 } * rng.range(0.5, 2.0)).collect();
+    let n = d + 3 + rng.below(40) as usize;
+    let pts: Vec<Vec<f64>> = (0..n).map(|_| (0..d).map(|i| mu[i] + sigma[i] * rng.normal()).collect()).collect();
+    let tests: Vec<Vec<f64>> = (0..4).map(|_| (0..d).map(|i| mu[i] + 2.0 * sigma[i] * rng.normal()).collect()).collect();
+    let replay = json!({"kind": "lowrank_rank0", "seed": seed, "idx": idx});
+    let settings = LowRankSettings::default();
+    let (mu2, sigma2) = (mu.clone(), sigma.clone());
+    let r = with_timeout(60, move || {
+        guard(move || {
+            let mut math = math_for(d);
+            let mut strat = LowRankMassMatrixStrategy::new(d, settings);
+            let mut mm = LowRankMassMatrix::new(&mut math, settings);
+            let mut coll = new_draw_grad_collector(&mut math);
+            for p in &pts {
+                set_draw_grad_collector(&mut math, &mut coll, p, &gauss_grad_diag(&mu2, &sigma2, p), true);
+                MassMatrixAdaptStrategy::<SM>::update_estimators(&mut strat, &mut math, &coll);
+            }
+            MassMatrixAdaptStrategy::<SM>::adapt(&strat, &mut math, &mut mm);
+            let parts = mm.verif_parts(&mut math);
+            let mut worst: f64 = 0.0;
+            for t in &tests {
+                let g = gauss_grad_diag(&mu2, &sigma2, t);
+                let mut x = math.new_array();
+                math.read_from_slice(&mut x, t);
+                let mut gx = math.new_array();
+                math.read_from_slice(&mut gx, &g);
+                let mut y = math.new_array();
+                let mut gy = math.new_array();
+                let _ = mm.inv_transform_normalize(&mut math, &x, &gx, &mut y, &mut gy);
+                let (yv, gyv) = (math.box_array(&y).into_vec(), math.box_array(&gy).into_vec());
+                let num: f64 = yv.iter().zip(&gyv).map(|(a, b)| (a + b) * (a + b)).sum::<f64>().sqrt();
+                worst = worst.max(num / norm(&yv).max(1e-300));
+            }
+            (parts, worst)
+        })
+    });
+    let mut h = Fnv::new();
+    h.str("lowrank_rank0").u64(d as u64 / 3).u64(if offset > 0.0 { offset.log10() as u64 + 1 } else { 0 });
+    report.nontrivial(h.finish());
+    match r {
+        None => report.violation("C08:lowrank:hang", format!("estimator did not return within 60 s (d {d}, {n} points)"), replay),
+        Some(Err(p)) => report.violation(format!("C08:lowrank:panic:{}", panic_site(&p)), p, replay),
+        Some(Ok((parts, worst))) => {
+            report.count("lowrank_rank0_windows_checked", 1);
+            if parts.id < 0 {
+                report.violation("C08:lowrank:no_update_with_enough_draws", format!("{n} Gaussian draws in dimension {d} (|mean|/std {offset:e}): the estimate was rejected"), replay.clone());
+                return;
+            }
+            // a mean of size offset*sigma limits the accuracy of a centred value to offset * eps
+            let tol = 1e-9 + offset * 1e-13;
+            for i in 0..d {
+                if !((parts.stds[i] - sigma[i]).abs() <= tol * sigma[i]) {
+                    report.violation("C08:lowrank:std_not_recovered", format!("coord {i} of {d}: std {} vs sigma {} (|mean|/std {offset:e}, {n} points)", parts.stds[i], sigma[i]), replay.clone());
+                    return;
+                }
+            }
+            if !(worst <= 1e-7 + offset * 1e-12) {
+                report.violation("C08:lowrank:gaussian_not_whitened", format!("independent Gaussian, default settings: |y + grad_y| / |y| = {worst:e} (d {d}, |mean|/std {offset:e})"), replay);
             }
         }
     }
@@ -466,6 +550,7 @@ pub fn run(args: &Args, report: &mut Report) {
         match r["kind"].as_str().unwrap() {
             "diag_exact" => diag_exact(report, s, i),
             "lowrank_exact" => lowrank_exact(report, s, i),
+            "lowrank_rank0" => lowrank_rank0(report, s, i),
             "robust" => robust_case(report, s, i),
             _ => end_to_end(report, s, i),
         }
@@ -475,6 +560,8 @@ pub fn run(args: &Args, report: &mut Report) {
     let n2 = report.size(600, 20_000);
     let n3 = report.size(2000, 60_000);
     let n4 = report.size(48, 960);
+    let n5 = report.size(600, 20_000);
+    crate::report::par_run(report, n5, |i, rep| lowrank_rank0(rep, seed, i));
     crate::report::par_run(report, n1 + n2 + n3 + n4, |i, rep| {
         if i < n1 {
             diag_exact(rep, seed, i)
